@@ -274,6 +274,25 @@ def tree_parts(tree):
     return nodes, arrs
 
 
+def tree_text(tree):
+    """By-value picture of a recorded tree: names, types, flags, which side each child hangs on, the terminal values (bytes)."""
+    out, stack = [], [(tree, 'root')]
+    seen = set()
+    while stack:
+        n, side = stack.pop()
+        if n is None or id(n) in seen or not hasattr(n, 'left'):
+            if n is not None and not hasattr(n, 'left'):
+                out.append((side, 'not-a-node', type(n).__name__, repr(n)[:40]))
+            continue
+        seen.add(id(n))
+        v = getattr(n, '_value', None)
+        out.append((side, str(getattr(n, 'name', None)), str(getattr(n, 'type', None)), bool(getattr(n, 'flag', None)),
+                    v.tobytes() if isinstance(v, np.ndarray) else repr(v)))
+        stack.append((getattr(n, 'right', None), side + 'R'))
+        stack.append((getattr(n, 'left', None), side + 'L'))
+    return out
+
+
 def tree_value(t):
     """Value of a tree computed on a private deep copy, so that observing never touches the live terminal arrays."""
     return np.array(copy.deepcopy(t).position, copy=True, dtype=float)
@@ -518,6 +537,8 @@ class Monitor:
         r = orig(hist, **kwargs)
         if not self.light:
             d['rec_copy'] = {k: copy.deepcopy(getattr(hist, k)[-1]) for k in ('agents', 'best_agent', 'local') if hasattr(hist, k)}
+            if self.cfg['space'] == 'tree' and isinstance(getattr(hist, 'best_tree', None), list) and hist.best_tree:
+                d['best_tree_text'] = tree_text(hist.best_tree[-1])
         self.dumps.append(d)
         return r
 
@@ -938,6 +959,28 @@ def check_c04(mon):
             return
     if len(mon.dumps) != nit:
         return
+    # the recorded best trees (GP) are records too: each must still be, value for value, what it was when it was stored
+    bts = getattr(hist, 'best_tree', None)
+    if cfg['space'] == 'tree' and isinstance(bts, list) and len(bts) == nit:
+        for t, d in enumerate(mon.dumps):
+            if 'best_tree_text' in d and tree_text(bts[t]) != d['best_tree_text']:
+                mon.v('C04', 'record-altered-later-best_tree', 'history.best_tree[%d] changed after it was stored (its nodes or terminal values were '
+                      'rewritten by a later iteration)' % t, 'changed', 'unchanged')
+                break
+    # saving the history is a read: the returned History must be the same record afterwards
+    try:
+        import tempfile
+        before = {k: copy.deepcopy(getattr(hist, k)) for k in ('agents', 'best_agent', 'local') if hasattr(hist, k)}
+        tb = [tree_text(x) for x in bts] if isinstance(bts, list) else None
+        with tempfile.TemporaryDirectory() as td:
+            hist.save(os.path.join(td, 'h.pkl'))
+        for k, v in before.items():
+            if not same(getattr(hist, k, None), v):
+                mon.v('C04', 'record-altered-by-save-' + k, 'history.%s changed when the history was saved' % k, 'changed', 'unchanged')
+        if tb is not None and [tree_text(x) for x in getattr(hist, 'best_tree', [])] != tb:
+            mon.v('C04', 'record-altered-by-save-best_tree', 'history.best_tree changed when the history was saved', 'changed', 'unchanged')
+    except Exception:  # noqa: BLE001   (a save that raises is C19's subject)
+        pass
     for t, d in enumerate(mon.dumps):
         for k, live in (('best_agent', d['live_best']), ('agents', d['live_agents']), ('local', d['live_local'])):
             if k not in keys:
